@@ -103,6 +103,6 @@ SPECS['C20'] = dict(
           'non-trivial = n > 32 and fewer distinct keys than elements (so at least one duplicate key); distinct = distinct case descriptor'),
     assumptions=['for bare instants equal keys are bit-identical, so stability is only observable (and only asserted) for events',
                  'the comparison order is the one instant.h documents: all-day before timed on the same day, all-second before millisecond values'],
-    quick=dict(workers=16, cases=400, size=100, timeout=900),
+    quick=dict(workers=16, cases=2500, size=100, timeout=900),
     thorough=dict(workers=16, cases=30000, size=100, timeout=3600),
 )
